@@ -297,6 +297,85 @@ theorem init_pool_v2_sound (keyA keyB : Nat) (a b : MintIn) (price ts tierTs fee
               fun hh => hb (Or.inl hh), fun hh => hb (Or.inr hh),
               verify_mint_sound a _ ha, verify_mint_sound b _ hbb⟩
 
+theorem valid_te_spec (te : Option Nat) (now : Nat) (perm : Bool) (h : isValidTradeEnableTimestamp te now perm = true) :
+    te = none ∨ ∃ t, te = some t ∧ perm = true ∧ t ≤ now + MAX_TRADE_ENABLE_TIMESTAMP_DELTA ∧ now ≤ t + 30 := by
+  unfold isValidTradeEnableTimestamp at h
+  cases te with
+  | none => left; rfl
+  | some t =>
+    right
+    simp only [] at h
+    cases perm with
+    | false => simp at h
+    | true =>
+      simp only [Bool.not_true, Bool.false_eq_true, if_false] at h
+      by_cases c : t > now
+      · rw [if_pos c] at h; exact ⟨t, rfl, rfl, by have := of_decide_eq_true h; omega, by omega⟩
+      · rw [if_neg c] at h; exact ⟨t, rfl, rfl, by omega, by have := of_decide_eq_true h; omega⟩
+
+/-- C19 / C14 / C17 at instruction level for adaptive-fee pools: whenever `initialize_pool_with_adaptive_fee`
+    creates a pool, the authority slot signed and — for a permissioned tier — is the tier's authority; the mint
+    keys are in canonical order; price, fee rate and protocol fee rate are within bounds and are the tier's /
+    config's; both mints pass the admission table; the adaptive-fee constants copied into the Oracle satisfy the
+    published validity rules for the pool's spacing; and a trade-enable time is accepted only from a
+    permissioned tier, at most 72 h ahead and at most 30 s in the past. -/
+theorem init_pool_af_sound (keyA keyB : Nat) (a b : MintIn) (price proto now : Nat) (te : Option Nat)
+    (authMode : Nat) (perm : Bool) (ts fee : Nat) (c : AfConstants) (p : PoolD) (nt : Bool) (t : Nat)
+    (h : initializePoolWithAdaptiveFee keyA keyB a b price proto now te authMode perm ts fee c = .ok (p, nt, t)) :
+    authMode ≠ 2 ∧ (perm = true → authMode ≠ 1) ∧
+    keyA < keyB ∧ p.price = price ∧ MIN_SQRT_PRICE_X64 ≤ price ∧ price ≤ MAX_SQRT_PRICE_X64 ∧
+    p.ts = ts ∧ ts ≠ 0 ∧ p.feeRate = fee ∧ fee ≤ MAX_FEE_RATE ∧ p.protoRate = proto ∧ proto ≤ MAX_PROTOCOL_FEE_RATE ∧
+    isSupportedTokenMint a.token2022 a.native a.freeze (badgeInit a.badge) a.tlv = .ok true ∧
+    isSupportedTokenMint b.token2022 b.native b.freeze (badgeInit b.badge) b.tlv = .ok true ∧
+    validateConstants ts c = true ∧ t = te.getD 0 ∧
+    (te = none ∨ ∃ x, te = some x ∧ perm = true ∧ x ≤ now + MAX_TRADE_ENABLE_TIMESTAMP_DELTA ∧ now ≤ x + 30) := by
+  unfold initializePoolWithAdaptiveFee at h
+  split at h
+  · cases h
+  · rename_i h2
+    split at h
+    · cases h
+    · split at h
+      · cases h
+      · rename_i hperm
+        split at h
+        · cases h
+        · rename_i _ ha
+          split at h
+          · cases h
+          · rename_i _ hbb
+            split at h
+            · cases h
+            · rename_i hte
+              split at h
+              · cases h
+              · rename_i q hq
+                split at h
+                · cases h
+                · rename_i hc
+                  simp only [Except.ok.injEq, Prod.mk.injEq] at h
+                  obtain ⟨hpq, _, ht⟩ := h
+                  subst hpq
+                  obtain ⟨h1, h2', h3, h4, h5, h6, _⟩ := init_pool_bounds _ _ _ _ _ _ _ hq
+                  obtain ⟨f1, f2, f3, f4⟩ := init_pool_fields _ _ _ _ _ _ _ hq
+                  rw [f1] at h2' h3
+                  rw [f2] at h4
+                  rw [f3] at h5
+                  rw [f4] at h6
+                  have hte' : isValidTradeEnableTimestamp te now perm = true := by
+                    cases hx : isValidTradeEnableTimestamp te now perm with
+                    | true => rfl
+                    | false => simp [hx] at hte
+                  have hc' : validateConstants ts c = true := by
+                    cases hx : validateConstants ts c with
+                    | true => rfl
+                    | false => simp [hx] at hc
+                  refine ⟨h2, ?_, h1, f1, h2', h3, f2, h4, f3, h5, f4, h6, verify_mint_sound a _ ha, verify_mint_sound b _ hbb,
+                    hc', ht.symm, valid_te_spec te now perm hte'⟩
+                  intro hp ha1
+                  apply hperm
+                  simp [hp, ha1]
+
 -- Non-vacuity: a Token-2022 mint with a permanent delegate makes a pool only with its badge (kind 1), not with
 -- another config's data at the address (kind 3), a foreign-owned copy (kind 4) or nothing (kind 0)
 example :
